@@ -53,6 +53,14 @@ func analysePctFunc(c *core.Ctx, info *types.Info, fd *ast.FuncDecl, key string)
 				if as, ok := x.Init.(*ast.AssignStmt); ok && len(as.Lhs) == 1 {
 					f.idx = astx.ObjOf(info, as.Lhs[0])
 				}
+				// a condition-only loop `for i < len(s)`: the index is what the condition compares with the length
+				if x.Init == nil && x.Cond != nil {
+					if l, op, r, ok := astx.CompareOp(x.Cond); ok && (op == token.LSS || op == token.LEQ) {
+						if lc, isCall := astx.Unparen(r).(*ast.CallExpr); isCall && astx.IsBuiltin(info, lc, "len") {
+							f.idx = astx.ObjOf(info, l)
+						}
+					}
+				}
 			}
 		case *ast.AssignStmt:
 			if len(x.Lhs) == 1 && len(x.Rhs) == 1 {
@@ -339,10 +347,61 @@ func percentAgreement(c *core.Ctx) {
 	if width < 0 {
 		c.Undecided("decode/escape-width", parse.Pos(), "parse operand is not encoded[i+a:i+b]")
 	}
-	if k, ok := astx.ConstInt(info, skip.Rhs[0]); ok {
-		c.Check(k == 2, "decode/skip", skip.Pos(), "after an escape the index advances by %d (+1 from the loop) = 3 characters", k)
-	} else {
-		c.Undecided("decode/skip", skip.Pos(), "non-constant skip")
+	// every trip through the loop body advances the index by 3 when it decoded an escape and by 1 otherwise,
+	// counting the loop's own post statement (`i++`) where there is one
+	{
+		post := int64(0)
+		if pd, ok := decSlow.loop.Post.(*ast.IncDecStmt); ok && pd.Tok == token.INC && astx.ObjOf(info, pd.X) == decSlow.idx {
+			post = 1
+		}
+		trips, wrong, allExits := 0, 0, 0
+		decided := true
+		astx.ForEachExit(info, decSlow.loop.Body, func(s *astx.State, kind astx.ExitKind, ret *ast.ReturnStmt) {
+			allExits++
+			// go/cfg ends a body that can fall off its end with a synthetic return: only a return written in
+			// the loop body leaves the loop
+			if ret != nil && astx.Contains(decSlow.loop.Body, ret) {
+				return
+			}
+			trips++
+			adv := post
+			escaped := false
+			for _, st := range s.Steps {
+				if astx.Contains(st, parse) {
+					escaped = true
+				}
+				switch y := st.(type) {
+				case *ast.IncDecStmt:
+					if astx.ObjOf(info, y.X) == decSlow.idx {
+						if y.Tok == token.INC {
+							adv++
+						} else {
+							adv--
+						}
+					}
+				case *ast.AssignStmt:
+					if len(y.Lhs) == 1 && astx.ObjOf(info, y.Lhs[0]) == decSlow.idx {
+						k, isC := astx.ConstInt(info, y.Rhs[0])
+						switch {
+						case y.Tok == token.ADD_ASSIGN && isC:
+							adv += k
+						case y.Tok == token.SUB_ASSIGN && isC:
+							adv -= k
+						default:
+							decided = false
+						}
+					}
+				}
+			}
+			if (escaped && adv != 3) || (!escaped && adv != 1) {
+				wrong++
+			}
+		})
+		if !decided {
+			c.Undecided("decode/skip", skip.Pos(), "non-constant change of the index")
+		} else {
+			c.Check(wrong == 0 && trips > 0, "decode/skip", skip.Pos(), "%d way(s) through the decode loop body: the index advances by 3 after an escape and by 1 otherwise (%d way(s) differ; %d exit(s) in all)", trips, wrong, allExits)
+		}
 	}
 	parseDNF, trunc1 := astx.PathConditions(info, decSlow.fd.Body, parse)
 	passDNF2, trunc2 := astx.PathConditions(info, decSlow.fd.Body, decPass)
@@ -418,6 +477,31 @@ func percentAgreement(c *core.Ctx) {
 		startsAtOffset := false
 		if as, ok := pair.slow.loop.Init.(*ast.AssignStmt); ok && len(as.Rhs) == 1 && pair.slow.off != nil && astx.ObjOf(info, as.Rhs[0]) == pair.slow.off {
 			startsAtOffset = true
+		}
+		if pair.slow.loop.Init == nil && pair.slow.off != nil && pair.slow.idx != nil {
+			// `i := offset` in front of a condition-only loop; every other change of i is a step forward
+			defs, stepsOnly := 0, true
+			ast.Inspect(pair.slow.fd.Body, func(n ast.Node) bool {
+				as, ok := n.(*ast.AssignStmt)
+				if !ok || len(as.Lhs) != 1 || astx.ObjOf(info, as.Lhs[0]) != pair.slow.idx {
+					return true
+				}
+				switch as.Tok {
+				case token.DEFINE:
+					defs++
+					if astx.ObjOf(info, as.Rhs[0]) != pair.slow.off || astx.Contains(pair.slow.loop, as) {
+						stepsOnly = false
+					}
+				case token.ADD_ASSIGN:
+					if k, isC := astx.ConstInt(info, as.Rhs[0]); !isC || k < 0 {
+						stepsOnly = false
+					}
+				default:
+					stepsOnly = false
+				}
+				return true
+			})
+			startsAtOffset = defs == 1 && stepsOnly
 		}
 		copiesPrefix := false
 		for _, call := range pair.slow.calls {
